@@ -79,6 +79,7 @@ package filters
 //@   ensures accepts: bpc == 8 && cols >= 1 && colors >= 1 && mod(len(data), rs) == 0 ==> !err
 //@   loop 0:
 //@     invariant 0 <= row && row * rowSize >= 0 && rowSize == rs && rowSize >= 1 && colors >= 1 && len(result) == len(data) && row * rowSize <= len(data)
+//@     invariant row <= gdiv(len(data), rowSize) && gdiv(len(data), rowSize) * rowSize == len(data)
 //@     invariant row * rowSize < len(data) ==> cg[row * rowSize] == 0
 //@     invariant forall k int :: 0 <= k && k < row * rowSize ==> result[k] == raw[k]
 //@   loop 1:
